@@ -119,6 +119,7 @@ pub mod verif_kani {
 #[cfg(kani)]
 pub mod verif_kani_c06 {
     use super::*;
+    #[allow(unused_imports)] use crate::key::{Proof, SessionKey}; #[allow(unused_imports)] use crate::normalized_string::NormalizedString; #[allow(unused_imports)] use crate::error::MatchProofsError;
     use core::sync::atomic::{AtomicU8, AtomicU32, AtomicUsize, Ordering};
     use crate::normalized_string::verif_kani::verif_make;
     static P: [AtomicU8; 20] = [const { AtomicU8::new(0) }; 20];
